@@ -153,7 +153,9 @@ pub fn check_pair(sh: &mut Shard, a: &IG, b: &IG, lat: &Lat, verbose: bool) {
             return;
         }
     };
-    let stride = if (bb.1 - bb.0).max(bb.3 - bb.2) > 10 { 2 } else { 1 };
+    // (odd strides for the larger envelopes: every residue of the quarter lattice is still visited)
+    let w = (bb.1 - bb.0).max(bb.3 - bb.2);
+    let stride = if w > 200 { 2 * (w / 100) + 1 } else if w > 40 { 3 } else if w > 10 { 2 } else { 1 };
     let pts = match guard(|| samples(&[&ma, &mb], bb, lat, stride)) {
         Ok(p) => p,
         Err(_) => {
@@ -310,7 +312,8 @@ pub fn check_unary(sh: &mut Shard, members: &[IG], ccw: bool, lat: &Lat, verbose
             return;
         }
     };
-    let stride = if (bb.1 - bb.0).max(bb.3 - bb.2) > 10 { 2 } else { 1 };
+    let w = (bb.1 - bb.0).max(bb.3 - bb.2);
+    let stride = if w > 40 { 3 } else if w > 10 { 2 } else { 1 };
     let pts = match guard(|| samples(&refs, bb, lat, stride)) {
         Ok(p) => p,
         Err(_) => {
@@ -591,6 +594,66 @@ pub fn run(ctx: &Ctx, sh: &mut Shard) {
         let mut r = Rng::derive(ctx.seed, ctx.shard, k);
         let g = *r.pick(&[3i64, 4, 4, 5, 6, 8]);
         let lat = Lat::random(&mut r);
+        // one case in 300: a collection of realistic size - 60-150 cells of a grid (apart, or sharing edges), some of them
+        // with a hole, one of them larger with a hole around others' - for unary_union; and a track of 130-700 coordinates
+        // zig-zagging across a polygon, for clip
+        if k % 300 == 57 {
+            let (nx, ny) = (r.range(6, 12), r.range(8, 12));
+            let side = 4;
+            let pitch = if r.chance(1, 2) { 4 } else { 5 };
+            let mut ms: Vec<IG> = vec![];
+            for j in 0..ny {
+                for i in 0..nx {
+                    let (x, y) = (i * pitch, j * pitch);
+                    let shell = vec![(x, y), (x + side, y), (x + side, y + side), (x, y + side), (x, y)];
+                    if r.chance(1, 4) {
+                        ms.push(IG::Polygon(vec![shell, vec![(x + 1, y + 1), (x + 1, y + 3), (x + 3, y + 3), (x + 3, y + 1), (x + 1, y + 1)]]));
+                    } else {
+                        ms.push(IG::Polygon(vec![shell]));
+                    }
+                }
+            }
+            // a frame around a part of the grid: a member with a hole that other members lie in
+            if r.chance(1, 2) {
+                let (x0, y0, x1, y1) = (-2, -2, nx * pitch + 2, ny * pitch + 2);
+                let at = r.below(ms.len() as u64 + 1) as usize;
+                ms.insert(at, IG::Polygon(vec![vec![(x0 - 2, y0 - 2), (x1 + 2, y0 - 2), (x1 + 2, y1 + 2), (x0 - 2, y1 + 2), (x0 - 2, y0 - 2)], vec![(x0, y0), (x0, y1), (x1, y1), (x1, y0), (x0, y0)]]));
+            }
+            if r.chance(1, 2) {
+                r.shuffle(&mut ms);
+            }
+            sh.class("unary_union:grid_of_60_to_150_members");
+            check_unary(sh, &ms, r.chance(1, 2), &Lat { shear: 0, ..lat }, false);
+            // clip: a long zigzag across a comb / plate / star
+            let p = loop {
+                let (x, _) = gen_large(&mut r);
+                if matches!(x, IG::Polygon(_) | IG::MultiPolygon(_)) && x.valid() {
+                    break x;
+                }
+            };
+            let cs = p.coords();
+            let (x0, x1) = (cs.iter().map(|c| c.0).min().unwrap(), cs.iter().map(|c| c.0).max().unwrap());
+            let (y0, y1) = (cs.iter().map(|c| c.1).min().unwrap(), cs.iter().map(|c| c.1).max().unwrap());
+            let n = crate::gen::long_count(&mut r) as i64;
+            let horizontal = r.chance(1, 2);
+            // strictly monotone along one axis (simple), swinging across the whole extent in the other
+            let line: Vec<IP> = (0..n)
+                .map(|i| {
+                    let t = if horizontal { (x0 - 2, x1 + 2) } else { (y0 - 2, y1 + 2) };
+                    let along = t.0 * 8 + i * ((t.1 - t.0) * 8 / n.max(1)).max(1);
+                    let across = if horizontal { (y0 - 1, y1 + 1) } else { (x0 - 1, x1 + 1) };
+                    let a = (if i % 2 == 0 { across.0 } else { across.1 }) * 8 + r.range(0, 7);
+                    if horizontal { (along, a) } else { (a, along) }
+                })
+                .collect();
+            // the polygon on the 8-fold lattice, so that the track's steps are lattice steps
+            let p8 = p.map(&|q| (8 * q.0, 8 * q.1));
+            if simple_linestring(&line) {
+                sh.class("clip:track_of_realistic_length");
+                check_clip(sh, &p8, &[line], &Lat { shear: 0, ..lat }, false);
+            }
+            continue;
+        }
         match k % 8 {
             6 => {
                 // unary_union of a consistently wound collection (members may overlap)
@@ -656,6 +719,37 @@ pub fn run(ctx: &Ctx, sh: &mut Shard) {
                 if !lines.is_empty() {
                     check_clip(sh, &p, &lines, &lat, false);
                 }
+            }
+            // one case in 60: operands with many rings / members / a node of high degree (hole grid, checkerboard, fan of
+            // triangles, star polygon) against a moved copy, a rectangle over a quarter, or another such shape
+            _ if k % 60 == 31 => {
+                let areal = |x: &IG| matches!(x, IG::Polygon(_) | IG::MultiPolygon(_) | IG::Rect(..));
+                let a = loop {
+                    let (x, cls) = gen_large(&mut r);
+                    if areal(&x) && x.valid() {
+                        sh.class(cls);
+                        break x;
+                    }
+                };
+                let mut b = None;
+                for _ in 0..12 {
+                    let x = large_partner(&mut r, &a);
+                    if areal(&x) && x.valid() {
+                        b = Some(x);
+                        break;
+                    }
+                }
+                let Some(b) = b else { continue };
+                let b = match b {
+                    IG::Rect(p, q) => IG::Polygon(vec![IG::rect_ring(p, q)]),
+                    o => o,
+                };
+                let (a, b) = if r.chance(1, 2) { (a, b) } else { (b, a) };
+                if a.n_segments() + b.n_segments() > 600 {
+                    continue;
+                }
+                let lat = Lat { shear: 0, ..lat };
+                check_pair(sh, &a, &b, &lat, false);
             }
             _ => {
                 let a = gen_areal(&mut r, g);
